@@ -71,10 +71,11 @@ def decoy_for(g, kind, calls):
         return "bye", out
     if kind in ("tfb", "pfb") and plain[0]["fci"]["f"] == "nack" and len(plain[0]["fci"]["adds"]) >= 4 and r.random() < 0.6:
         adds = sorted(set(plain[0]["fci"]["adds"]))
-        sib = list(adds)
-        i = r.randrange(1, len(sib) - 1)
-        sib[i] = (sib[i] + r.choice([1, 2, 17, 40])) % 65536        # same count, smallest and largest kept
-        return kind, [dict(plain[0], fci={"f": "nack", "adds": sib})] + plain[1:]
+        if len(adds) >= 3:
+            sib = list(adds)
+            i = r.randrange(1, len(sib) - 1)
+            sib[i] = (sib[i] + r.choice([1, 2, 17, 40])) % 65536        # same count, smallest and largest kept
+            return kind, [dict(plain[0], fci={"f": "nack", "adds": sib})] + plain[1:]
     k, c = g.builder("fb" if kind in ("tfb", "pfb") else kind, small=True)
     return k, c
 
@@ -684,6 +685,24 @@ def header_sweep(g, n, sidp):
         yield [reset(f"{sidp}/{i}"), {"op": "parse_all", "b": b}]
 
 
+def count_body_sweep(g, sidp):
+    """well-framed strings (length field = real length) whose body is too short, exact or too long for what the
+    count field announces: every count of interest against every nearby length, for SR, RR and BYE"""
+    r = g.r
+    for kind, unit in (("sr", 24), ("rr", 24), ("bye", 4)):
+        for cnt in (0, 1, 2, 3, 11, 31):
+            exact = MINLEN[kind] + unit * cnt
+            for delta in sorted({-unit * cnt, -unit, -8, -4, 0, 4, 8, unit, 2 * unit}):
+                ln = exact + delta
+                if ln < 4:
+                    continue
+                for p in (False, True):
+                    b = hdr(2, p, cnt, PT[kind], ln // 4 - 1) + [r.randrange(256) for _ in range(ln - 4)]
+                    if p:
+                        b[-1] = r.choice([4, 4, 8, 0, 255])
+                    yield [reset(f"{sidp}/{kind}/{cnt}/{delta}/{int(p)}"), {"op": "parse_all", "b": b}]
+
+
 def mutated_images(g, n, sidp, op="parse_all", kinds=None):
     r = g.r
     for i in range(n):
@@ -938,6 +957,7 @@ def c01(g, tier):
     yield from giant_chunk_sessions(g, "C01/giant")
     yield from reparse_sessions(g, 150 if q else 4000, "C01/reparse")
     yield from nack_pair_sessions(g, 100 if q else 3000, "C01/npair")
+    yield from count_body_sweep(g, "C01/cnt")
 
 
 def c08(g, tier):
@@ -946,6 +966,7 @@ def c08(g, tier):
     yield from mutated_images(g, 800 if q else 20000, "C08/mut")
     yield from concat_sessions(g, 300 if q else 8000, "C08/concat")
     yield from reparse_sessions(g, 200 if q else 5000, "C08/reparse")
+    yield from count_body_sweep(g, "C08/cnt")
     yield from big_inputs(g, "C08/big", 0)
 
 
@@ -982,6 +1003,7 @@ def fixed_layout_bodies(g, n, sidp):
 
 def c09(g, tier):
     q = tier == "quick"
+    yield from count_body_sweep(g, "C09/cnt")
     yield from fixed_layout_bodies(g, 4000 if q else 100000, "C09/body")
     for i in range(800 if q else 20000):
         k, calls = g.builder(g.r.choice(["sr", "rr", "app", "bye", "tfb", "pfb", "unk"]), small=g.r.random() < 0.5)
@@ -1032,6 +1054,7 @@ def c12(g, tier):
     yield from concat_sessions(g, 300 if q else 8000, "C12/concat")
     yield from fci_sessions(g, 600 if q else 15000, "C12/fci", op="parse_all")
     yield from reparse_sessions(g, 150 if q else 4000, "C12/reparse")
+    yield from count_body_sweep(g, "C12/cnt")
 
 
 def c13(g, tier):
@@ -1169,6 +1192,7 @@ def c18(g, tier):
     yield from concat_sessions(g, 200 if q else 5000, "C18/concat")
     yield from fci_sessions(g, 1500 if q else 40000, "C18/fci")
     yield from reparse_sessions(g, 200 if q else 5000, "C18/reparse")
+    yield from count_body_sweep(g, "C18/cnt")
     yield from big_inputs(g, "C18/big", 0)
 
 
